@@ -1,6 +1,12 @@
 package main
 
-import "github.com/pion/stun/v3"
+import (
+	"fmt"
+	"runtime"
+	"sync"
+
+	"github.com/pion/stun/v3"
+)
 
 // C19: the complete domain. 4096 methods x 4 classes through Value(), all 65536 wire values
 // through ReadValue(), in slices of 256 methods / 1024 values, plus out-of-domain methods and
@@ -66,5 +72,94 @@ func runC19(o *out, thorough bool, r *rng, _ []string) map[string]interface{} {
 			}
 		}
 	}
+	// the functions are pure: the whole domain once more in other call orders (strides that keep the low bits of
+	// the method fixed, coprime strides, backwards, random), against the table of the first pass
+	var table [4096 * 4]uint16
+	for m := 0; m < 4096; m++ {
+		for c := 0; c < 4; c++ {
+			table[m*4+c] = stun.MessageType{Method: stun.Method(m), Class: stun.MessageClass(c)}.Value()
+		}
+	}
+	prev := -1
+	visit := func(k int) {
+		k = ((k % 16384) + 16384) % 16384
+		m, c := k/4, k%4
+		t := stun.MessageType{Method: stun.Method(m), Class: stun.MessageClass(c)}
+		v := t.Value()
+		var back stun.MessageType
+		back.ReadValue(v)
+		if v != table[k] || back != t {
+			o.fail("value-depends-on-call-order", "1901 "+fNums(m, c)+fmt.Sprintf(" (called right after method %d class %d: got %#x, alone %#x)", prev/4, prev%4, v, table[k]))
+		}
+		prev = k
+	}
+	for _, stride := range []int{4 * 256, 4 * 16, 4*256 + 1, 4*1024 + 2, 7, 4097, -1, -4 * 256} {
+		k := 0
+		for i := 0; i < 16384; i++ {
+			visit(k)
+			k += stride
+			if stride%2 == 0 && (i+1)%(16384/gcd(16384, abs(stride))) == 0 {
+				k++ // an even stride does not generate the whole domain: move to the next coset
+			}
+		}
+		o.countN("reordered_value_calls", 16384)
+	}
+	for i := 0; i < 60000; i++ {
+		k := r.intn(16384)
+		visit(k)
+		if r.chance(1, 2) { // a related type next: same low byte of the method, same class, other high bits
+			visit(k ^ (r.intn(16) << 10))
+		}
+	}
+	o.countN("reordered_value_calls", 90000)
+	// and from several goroutines at once, each on values of its own: every answer is the table's
+	var rtable [65536]stun.MessageType
+	for v := 0; v < 65536; v++ {
+		rtable[v].ReadValue(uint16(v))
+	}
+	var wg sync.WaitGroup
+	var mu sync.Mutex
+	bad := ""
+	for w := 0; w < 4*runtime.GOMAXPROCS(0); w++ {
+		wg.Add(1)
+		go func(w int) {
+			defer wg.Done()
+			v := w * 977
+			for i := 0; i < 65536; i++ {
+				v = (v + 2*w + 1) & 0xffff
+				var t stun.MessageType
+				t.ReadValue(uint16(v))
+				k := (v*7 + w) & 16383
+				val := stun.MessageType{Method: stun.Method(k / 4), Class: stun.MessageClass(k % 4)}.Value()
+				if t != rtable[v] || val != table[k] {
+					mu.Lock()
+					if bad == "" {
+						bad = fmt.Sprintf("1902 %d (goroutine %d: ReadValue gave method %d class %d, alone method %d class %d; Value(method %d class %d) gave %#x, alone %#x)",
+							v, w, t.Method, t.Class, rtable[v].Method, rtable[v].Class, k/4, k%4, val, table[k])
+					}
+					mu.Unlock()
+				}
+			}
+		}(w)
+	}
+	wg.Wait()
+	if bad != "" {
+		o.fail("concurrent-result-differs", bad)
+	}
+	o.countN("concurrent_calls", 2*65536*4*runtime.GOMAXPROCS(0))
 	return map[string]interface{}{"exhaustive": true}
+}
+
+func gcd(a, b int) int {
+	for b != 0 {
+		a, b = b, a%b
+	}
+	return a
+}
+
+func abs(a int) int {
+	if a < 0 {
+		return -a
+	}
+	return a
 }
